@@ -170,6 +170,17 @@ CHECKS = {
                 "(sync rewrites the truth file). Trusted: Lean kernel + 3 axioms, the ast translator (one hop of data flow), the audit-hook oracle.",
         "technique": "translator-regenerated site table (decide) + Lean 4 proof by construction (subtype-carried alphabet invariant) + audit-hook oracle",
     },
+    "C02": {
+        "text": "Lean theorems over a structured-AST model of the four emitters (class, pydantic, function, argparse), the render/re-read step and the four "
+                "parsers, with the docstring layer (C01) and CPython's expression parser as parameters: emit -> reparse -> parse returns the statement's "
+                "normal form of the interface for every number of parameters and every configuration (style, emit_default_doc, type_annotations, kw-only, "
+                "static/self/cls) on an explicit decidable domain inD02 under the decidable docstring-layer hypothesis docHyp; eleven negations proved on "
+                "witnesses where the unchanged code normalises further than the statement allows. Tied to the code stage by stage (emitted AST, re-parsed AST, "
+                "parsed IR, whole round trip) on generated interfaces x 42 configurations and hand-written sources.",
+        "note": "Partial (C02_full kept as a def; 26 known findings, each replayed every run). The docstring layer is a parameter whose real answers are sent "
+                "with every request; textwrap.fill on one-line descriptions and type strings as opaque strings are trusted. Lean kernel + 3 axioms.",
+        "technique": "Lean 4 proof (induction over the parameter list, parametric in the docstring layer) + stage-wise differential correspondence",
+    },
     "C20": {
         "text": "Lean theorems over an effect-trace model of exmod / exmod_single_folder / emit_file_on_hierarchy / _emit_symbol / _create_sqlalchemy_mod on an "
                 "abstract file system (string-level posixpath port): with dry_run every effect is a print and the file system is unchanged, for every tree and "
